@@ -13,7 +13,7 @@ from ..gen.common import rng
 from ..util import repo_path
 
 LEVEL = "fault_enumeration"
-RULE = ("fault = state of the on-disk cache before loading: missing, every prefix length 0..N-1 of the shipped "
+RULE = ("[+ fault sequences: a repairing process killed right before the rename or half-way through the write, then the next import] fault = state of the on-disk cache before loading: missing, every prefix length 0..N-1 of the shipped "
         "file (thorough: all; quick: first/last 64 bytes, every pickle-opcode boundary kind and a mid-opcode cut, "
         "the boundaries of the four tuple members, 300 seeded random lengths), and unreadable contents (random "
         "bytes, zeros, pickles of the wrong shape, pickle naming a missing class). Drivers: (a) the real "
@@ -262,11 +262,37 @@ CHILD = ("import sys, hashlib; sys.path.insert(0, sys.argv[1]); import dateparse
          "print('DIGEST', h.hexdigest(), r.utcoffset().total_seconds())\n")
 
 
-def child_import(scratch, timeout=120):
+# a process that dies while it repairs the cache: either right before the finished file is moved into place (audit event
+# of os.replace/os.rename onto the cache) or in the middle of writing it (pickle.dump writes half of the bytes, then the
+# process exits).  Whatever it leaves behind (a temporary file under whatever name the implementation uses, a partial cache)
+# is the fault state the next import meets.
+CRASH_PRELUDE = ("import os, sys, pickle\n"
+                 "_mode, _cache = sys.argv[2], sys.argv[3]\n"
+                 "if _mode == 'at-rename':\n"
+                 "    def _hook(ev, args):\n"
+                 "        if ev == 'os.rename' and os.path.abspath(str(args[1])) == _cache:\n"
+                 "            os._exit(17)\n"
+                 "    sys.addaudithook(_hook)\n"
+                 "else:\n"
+                 "    _dump = pickle.dump\n"
+                 "    def _half(obj, f, *a, **k):\n"
+                 "        b = pickle.dumps(obj, *a, **k)\n"
+                 "        f.write(b[:len(b) // 2]); f.flush(); os._exit(17)\n"
+                 "    pickle.dump = _half\n")
+
+
+def child_import(scratch, timeout=120, crash=None, cache=None):
     env = dict(os.environ)
     env["PYTHONPATH"] = ""
     env["PYTHONDONTWRITEBYTECODE"] = "1"
     env.pop("BUILD_TZ_CACHE", None)
+    if crash:
+        try:
+            p = subprocess.run([sys.executable, "-c", CRASH_PRELUDE + CHILD, scratch, crash, os.path.abspath(cache)],
+                               capture_output=True, text=True, timeout=timeout, env=env, cwd=scratch)
+        except subprocess.TimeoutExpired:
+            return "timeout", None
+        return ("crashed" if p.returncode == 17 else "rc=%d" % p.returncode), None
     try:
         p = subprocess.run([sys.executable, "-c", CHILD, scratch], capture_output=True, text=True,
                            timeout=timeout, env=env, cwd=scratch)
@@ -306,8 +332,14 @@ def run_import(ctx, desc):
         while len(states) < desc["n"]:
             p = rnd.choice(pts) if rnd.random() < 0.5 else rnd.randrange(len(data))
             states.append(("prefix:%d" % p, data[:p]))
-        for label, content in states:
+        # crashed repairs first (fault sequences: damaged cache -> a repairing process dies -> next import)
+        crash_states = [(lab, cont, mode) for lab, cont in states[:3] for mode in ("at-rename", "mid-dump")]
+        for label, content, crash in [(a, b, None) for a, b in states] + crash_states:
             ctx.ran()
+            datadir = os.path.dirname(cache)
+            for fn in os.listdir(datadir):
+                if fn.startswith(os.path.basename(cache)) and fn != os.path.basename(cache):
+                    os.remove(os.path.join(datadir, fn))      # leftovers of the previous sequence
             if content is None:
                 if os.path.exists(cache):
                     os.remove(cache)
@@ -316,6 +348,14 @@ def run_import(ctx, desc):
                     f.write(content)
             case = {"state": label, "driver": "import"}
             feats = {"state_kind": label.split(":")[0], "driver": "import"}
+            if crash:
+                how, _ = child_import(scratch, crash=crash, cache=cache)
+                leftovers = sorted(fn for fn in os.listdir(datadir) if fn.startswith(os.path.basename(cache)))
+                case = {"state": label, "driver": "import", "then": "repairing process killed %s (%s)" % (crash, how),
+                        "files_left": leftovers}
+                feats = {"state_kind": label.split(":")[0], "driver": "import-after-crashed-repair", "crash": crash}
+                ctx.count("crashed_repairs:%s:%s" % (crash, how))
+                label = "crash:" + label
             err, dg = child_import(scratch)
             if err:
                 ctx.violation(case, err, "import succeeds", "import-raised", feats)
